@@ -13,7 +13,11 @@ Inductive case :=
    endpoints is set (a new ready list = a new, not yet existing counter); per phase: ready endpoints, picks
    per goroutine, schedule; observed: trace (goroutine, pick completed?) and per-goroutine results *)
 | CConc (subset : eplist)
-        (phases : list (eplist * list nat * list nat * list (Z * Z) * list (list Z))).
+        (phases : list (eplist * list nat * list nat * list (Z * Z) * list (list Z)))
+(* requests of one policy through the real dispatcher: ready endpoints, the policy's subset, ops, and per op
+   what happened: -3 = refused (429), -2 = nothing to observe (a Sync), -1 = 503, else the endpoint that
+   received the forwarded request *)
+| CReq (ready subset : eplist) (ops : list qop) (obs : list Z).
 
 Definition pres_code (p : pres) : Z := match p with PErr => -1 | POk e => e end.
 
@@ -50,7 +54,9 @@ Fixpoint conc_walk (subset : eplist) (cur : cursors)
       (agree && a2, only_ready_ok rd glob && o2, strict_ok rd glob && s2)
   end.
 
-(* clause layout: agree, only_ready, strict, unordered, wrap, conc_strict *)
+Definition qres_code (x : qres) : Z := match x with QRefused => -3 | QNone => -2 | QOut p => pres_code p end.
+
+(* clause layout: agree, only_ready, strict, unordered, wrap, conc_strict, req_strict *)
 Definition eval (c : case) : list bool :=
   match c with
   | CRr ready explicit force orders obs =>
@@ -60,8 +66,16 @@ Definition eval (c : case) : list bool :=
         match force with None => if explicit then strict_ok eps obs else true | Some _ => true end;
         match force with None => unordered_ok eps orders obs | Some _ => true end;
         (if explicit then wrap_ok eps obs else true);
-        true ]
-  | CHist srv dis ops obs => [ agree_hist srv dis ops obs; true; true; true; true; true ]
+        true; true ]
+  | CHist srv dis ops obs => [ agree_hist srv dis ops obs; true; true; true; true; true; true ]
   | CConc subset phases =>
-      let '(a, o, s) := conc_walk subset [] phases in [ a; o; true; true; true; s ]
+      let '(a, o, s) := conc_walk subset [] phases in [ a; o; true; true; true; s; true ]
+  | CReq ready subset ops obs =>
+      let ok := fun e => zin e ready in
+      let eps := filter ok subset in
+      (* the endpoints of the forwarded requests, as observed (refusals and Syncs are not picks) *)
+      let fwd := filter (fun x => -1 <=? x) obs in
+      [ list_eqb Z.eqb (map qres_code (qrun subset ok {| qcur := []; qzero := false |} ops)) obs;
+        only_ready_ok eps fwd; true; true; true; true;
+        strict_ok eps fwd ]
   end.
